@@ -150,6 +150,8 @@ namespace pika::execution {
 
             if (aborted_)
             {
+                // the abort has been delivered: later suspensions of this thread are ordinary ones
+                aborted_ = false;
                 PIKA_THROW_EXCEPTION(pika::error::yield_aborted, "suspend",
                     "std::thread({}) aborted (yield returned wait_abort)", id_);
             }
